@@ -232,6 +232,15 @@ class Converter:
             return v
         if isinstance(v, Fraction):
             return float(v)
+        import z3 as _z3
+
+        if isinstance(v, _z3.ExprRef):
+            sv = _z3.simplify(v)
+            if _z3.is_rational_value(sv) or _z3.is_int_value(sv):
+                return float(Fraction(sv.numerator_as_long(), sv.denominator_as_long())) if _z3.is_rational_value(sv) else sv.as_long()
+            if _z3.is_true(sv) or _z3.is_false(sv):
+                return _z3.is_true(sv)
+            raise ValueError("cannot convert %r to a native value" % (v,))
         if id(v) in self.memo:
             return self.memo[id(v)]
         if isinstance(v, tuple):
